@@ -294,10 +294,11 @@ def model_read(lit, dialect="javac"):
 
 # javac 17.0.x defect (observed, not in the specification): after a Unicode escape that yields a HIGH surrogate which is
 # not followed by a low surrogate, the reader has peeked one unit ahead and does not restore its backslash-parity flag,
-# so a following backslash run is mis-paired and a later \uXXXX may be read as the illegal string escape \u
-# ("\ud800\\\u0000" is rejected with 'illegal escape character' although it is a well-formed literal).  Literals of that
-# shape are kept out of the binding (a superset of the trigger is excluded) and counted.
-_JAVAC_HI_SURR_DEFECT = re.compile(r"\\u+[dD][89abAB][0-9a-fA-F]{2}\\(?!u+[dD][c-fC-F][0-9a-fA-F]{2}).*\\u", re.S)
+# so a directly following backslash run is mis-paired and the \uXXXX after it is read as the illegal string escape \u
+# or vice versa ("\ud800\\\u0000" is rejected with 'illegal escape character' although it is a well-formed literal).
+# Shape: escaped high surrogate, then either >= 2 backslashes directly followed by 'u', or an escape producing a
+# backslash.  Literals of that shape are kept out of the binding and counted.
+_JAVAC_HI_SURR_DEFECT = re.compile(r"\\u+[dD][89abAB][0-9a-fA-F]{2}(?:\\{2,}u|\\u+005[cC])")
 
 
 def bind(acc, literals, what):
